@@ -2,6 +2,7 @@ package eval
 
 import (
 	"strconv"
+	"strings"
 
 	"fortio.org/log"
 	"grol.io/grol/ast"
@@ -57,7 +58,11 @@ func convertObjectToASTNode(obj object.Object) ast.Node {
 		return &ast.Boolean{Base: ast.Base{Token: t}, Val: obj.Value}
 	case object.Float:
 		r := ast.FloatLiteral{Val: obj.Value}
-		r.Token = token.Intern(token.FLOAT, strconv.FormatFloat(obj.Value, 'g', -1, 64))
+		lit := strconv.FormatFloat(obj.Value, 'g', -1, 64)
+		if !strings.ContainsAny(lit, ".eIN") {
+			lit += ".0" // spelled like a float: 4.0 printed as 4 reads back as an integer.
+		}
+		r.Token = token.Intern(token.FLOAT, lit)
 		return &r
 	case object.String:
 		r := ast.StringLiteral{}
